@@ -272,7 +272,7 @@ func c01HookOrder(c *Ctx) {
 	if h == nil {
 		return
 	}
-	for _, lit := range h.AnonFuncs {
+	for _, lit := range hookWrappers(c, h) {
 		calls := c.Calls(lit, Op("dyncall", "", Any()))
 		var inc []*ssa.Store
 		instrs(lit, func(in ssa.Instruction) {
@@ -295,7 +295,11 @@ func c01HookOrder(c *Ctx) {
 			c.Check(len(others) == 0, "C01.b-count-once", key+" › counter only incremented", inc[0].Pos(), "the synced-block counter is written only by its increment (and its zero initialisation)", "the synced-block counter is also written at "+strings.Join(others, ", ")+": the count reported for a sync is not the number of blocks handed to the hook")
 		}
 		for _, cs := range calls {
-			same := len(cs.X.Args) >= 3 && cs.X.Args[1].V == ssa.Value(lit.Params[0]) && cs.X.Args[2].V == ssa.Value(lit.Params[1])
+			po := 0
+			if lit.Signature.Recv() != nil {
+				po = 1 // a method of the handler: its receiver comes first
+			}
+			same := len(cs.X.Args) >= 3 && len(lit.Params) >= po+2 && cs.X.Args[1].V == ssa.Value(lit.Params[po]) && cs.X.Args[2].V == ssa.Value(lit.Params[po+1])
 			c.Check(same, "C01.b-count-once", key+" › passes publisher and CID on", cs.In.Pos(), "user hook receives the wrapper's own (peer, CID)", "user hook is called with a different peer/CID than the block reported")
 		}
 	}
@@ -1247,6 +1251,25 @@ func counterOtherWrites(c *Ctx, inc *ssa.Store) []string {
 						}
 					}
 					if fa, ok := st.Addr.(*ssa.FieldAddr); ok {
+						// the struct holding the counter overwritten as a whole through its own field address
+						// (h.cur = state{…}): a write of the counter unless it is the initialisation before any sync call
+						if pt, ok := fa.Type().Underlying().(*types.Pointer); ok {
+							if stt, ok := pt.Elem().Underlying().(*types.Struct); ok {
+								for i := 0; i < stt.NumFields(); i++ {
+									if stt.Field(i) == fld {
+										before := true
+										instrs(f, func(o ssa.Instruction) {
+											if ci, isCall := o.(ssa.CallInstruction); isCall && ci.Common().IsInvoke() && ci.Common().Method.Name() == "Sync" && MayFollow(o, st) {
+												before = false
+											}
+										})
+										if !before {
+											out = append(out, c.pos(st.Pos()))
+										}
+									}
+								}
+							}
+						}
 						if deref(fa.X.Type()).Underlying().(*types.Struct).Field(fa.Field) == fld {
 							// initialisation inside the composite literal that creates the value is fine
 							if _, fresh := fa.X.(*ssa.Alloc); fresh && st.Block() == fa.X.(*ssa.Alloc).Block() {
@@ -1272,7 +1295,7 @@ func hookCounterInc(c *Ctx) *ssa.Store {
 	if h == nil {
 		return nil
 	}
-	for _, lit := range h.AnonFuncs {
+	for _, lit := range hookWrappers(c, h) {
 		if len(c.Calls(lit, Op("dyncall", "", Any()))) == 0 || len(lit.Params) < 2 {
 			continue
 		}
@@ -1410,4 +1433,22 @@ func c01SyncPoint(c *Ctx, f *Fn, hcall CallSite, limit, lnk *X) syncPoint {
 		return x
 	}
 	return syncPoint{fn: hf, target: R.Block(), pos: R.Pos(), lnk: inHelper(lnk), next: inHelper(sp.next), stop: inHelper(sp.stop), limit: inHelper(limit)}
+}
+
+// hookWrappers: the functions the per-publisher routine installs as block
+// hook — its function literals, and the named functions and method values
+// whose value it takes (a wrapper hoisted into a method of the handler).
+func hookWrappers(c *Ctx, h *ssa.Function) []*ssa.Function {
+	out := append([]*ssa.Function{}, h.AnonFuncs...)
+	seen := map[*ssa.Function]bool{}
+	for _, f := range out {
+		seen[f] = true
+	}
+	for _, f := range valueFuncs(h) {
+		if f != nil && !seen[f] && len(f.Blocks) > 0 && f.Pkg == h.Pkg {
+			seen[f] = true
+			out = append(out, f)
+		}
+	}
+	return out
 }
